@@ -13,8 +13,8 @@ open Flatland.Tree Flatland.PyList Flatland.C10
     and its stored parent pointer designates the mapping -/
 def KidsOK (pid : Nat) (subs : List Schema) (kids : List Node) : Prop :=
   ∀ c ∈ kids, c.parent = some pid ∧ c.sch ∈ subs ∧ c.key = c.sch.key ∧
-    -- the member's own `optional` / `name` are its field's (no instance-level override)
-    c.ni.optOv = none ∧ c.ni.nameOv = none
+    -- the member's own `name` is its field's (no instance-level `name=` override)
+    c.ni.nameOv = none
 
 structure MapInv (n : Node) : Prop where
   kids : KidsOK n.id n.sch.subs n.kids
